@@ -181,6 +181,40 @@ T['flat_ld_gather'] = """v_and_b32 v24, 63, v0
  flat_load_dword v22, v[17:18]
  s_waitcnt vmcnt(0)
  v_add_u32 v23, vcc, v22, v23"""
+# stream compaction: the lanes with (lane & 3) == 3 are switched off and the others read CONSECUTIVE dwords
+# (lane l reads in[l - l/4]): an EXEC mask with holes whose active lanes nevertheless form a unit-stride run, read
+# of the shared input region (all wavefronts read the same 48 dwords; loads only, so race-free)
+T['flat_ld_compact'] = """v_and_b32 v24, 63, v0
+ v_lshrrev_b32 v25, 2, v24
+ v_sub_u32 v25, vcc, v24, v25
+ v_lshlrev_b32 v25, 2, v25
+ v_add_u32 v17, vcc, s8, v25
+ v_mov_b32 v18, s9
+ v_addc_u32 v18, vcc, 0, v18, vcc
+ v_and_b32 v26, 3, v24
+ v_cmp_ne_u32 vcc, 3, v26
+ s_and_saveexec_b64 s[24:25], vcc
+ flat_load_dword v22, v[17:18]
+ s_waitcnt vmcnt(0)
+ s_mov_b64 exec, s[24:25]
+ v_add_u32 v23, vcc, v22, v23"""
+# the same with the holes at the low end of every group of eight and 64-bit elements
+T['flat_ld_compact_x2'] = """v_and_b32 v24, 63, v0
+ v_lshrrev_b32 v25, 3, v24
+ v_lshlrev_b32 v25, 1, v25
+ v_sub_u32 v25, vcc, v24, v25
+ v_lshlrev_b32 v25, 3, v25
+ v_add_u32 v17, vcc, s8, v25
+ v_mov_b32 v18, s9
+ v_addc_u32 v18, vcc, 0, v18, vcc
+ v_and_b32 v26, 7, v24
+ v_cmp_lt_u32 vcc, 1, v26
+ s_and_saveexec_b64 s[24:25], vcc
+ flat_load_dwordx2 v[26:27], v[17:18]
+ s_waitcnt vmcnt(0)
+ v_xor_b32 v22, v26, v27
+ s_mov_b64 exec, s[24:25]
+ v_add_u32 v23, vcc, v22, v23"""
 T['flat_two_outstanding'] = "flat_load_dword v22, v[9:10]\n flat_load_dword v23, v[11:12]\n s_waitcnt vmcnt(1)\n v_add_u32 v20, vcc, v22, v20\n s_waitcnt vmcnt(0)\n v_add_u32 v21, vcc, v23, v21"
 
 if __name__ == '__main__':
